@@ -13,6 +13,9 @@ import sys
 import vlib
 import c14_util as U
 
+sys.path.insert(0, os.path.join(vlib.ROOT, 'translator'))
+import units  # noqa: E402
+
 LEVEL = 'proof'
 META = {
     'text': 'Coq theorems (Props/C14.v), by induction over socket scripts of any length: RecordSocket reads over a plain or '
@@ -30,7 +33,7 @@ META = {
     'technique': 'Rocq/Coq proof over hand-written executable model + vm_compute correspondence + live differential oracle',
 }
 
-IMPORTS = ['Model.C14_Transport', 'Model.C14_Buffered', 'Model.C14_Defrag', 'Model.C14_Check', 'Model.C14_AsyncSM']
+IMPORTS = ['Model.C14_Transport', 'Model.C14_Buffered', 'Model.C14_Defrag', 'Model.C14_Check', 'Model.C14_AsyncSM', 'Model.C14_ReadLoop']
 WB_KEY = 'escape-EWOULDBLOCK'
 WB_WHAT = ('a would-block reported by the socket escapes the generator API as socket.error(EWOULDBLOCK) instead of a '
            '"yield 1" (before /repo 8168763: BufferedSocket.flush() -> socket.sendall while a buffered flight is flushed; '
@@ -162,12 +165,34 @@ def check_feed_direct(ctx, rng, fc):
 
 
 # ------------------------------------------------------------------------------------------
+def calltrace_lit(r):
+    """ReadCase literal: stages of (messages, calls) and the per-call trace of the unconstrained run"""
+    import c14_sys as S
+    h, tr = r['calltrace'], r['base_trace']
+    if any(len(x) != 5 or x[2][0] not in ('bytes', 'pending') for x in tr):
+        return None
+
+    def m(x):
+        return {'T': 'MTicket', 'K': 'MKeyUpdate', 'P': 'MPha', 'C': 'MClose'}.get(x[0]) or 'MData %s' % vlib.blit(x[1])
+    stages = []
+    for ms, (acts, calls) in zip(S.history_messages(h), h['stages']):
+        stages.append('(%s, %s)' % (vlib.listlit(ms, m), vlib.listlit(
+            calls, lambda c: '(%s, %s)' % ('None' if c[0] is None else '(Some %s)' % vlib.zlit(c[0]), vlib.zlit(c[1])))))
+    if sum(len(x[1]) for ms in S.history_messages(h) for x in ms if x[0] == 'D') > 12000:
+        return None
+    exp = vlib.listlit(tr, lambda x: '(%s, %s, %s)' % (
+        'RPending' if x[2][0] == 'pending' else 'RBytes %s' % vlib.blit(x[2][1]), vlib.zlit(x[3]), vlib.boollit(x[4])))
+    return '(%s, %s)' % (vlib.listlit(stages, lambda z: z), exp)
+
+
 def sys_key(s, diffs, outcome):
     txt = repr(diffs) + repr(outcome)
     if "('SockError', %d)" % errno.EWOULDBLOCK in txt:
         return WB_KEY + ':' + s.get('api', 'gen')
     if diffs[0][0] == 'sendall-reached':
         return 'sync-flush-reached:' + s.get('api', 'gen')
+    if diffs[0][0].startswith('call-'):
+        return 'per-call-trace:%s' % s.get('api', 'gen')
     what = 'reframe-' + s['reframe'] if s.get('reframe') else s.get('api', 'gen')
     return 'sys:%s:%s' % (what, diffs[0][0])
 
@@ -178,7 +203,15 @@ def make_tasks(ctx, quick):
     tasks = []
     for si, (name, scn) in enumerate(scns):
         rng = random.Random(ctx.rng.getrandbits(48))
-        if quick:
+        if scn.get('api'):
+            # keyword-argument flavours: the point is generator == AsyncStateMachine == blocking call
+            scheds = [dict(api='asm'), dict(api='blocking'), dict(api='blocking', recv='one'),
+                      dict(api='asm', recv='one', block_recv=1), dict(recv='rand', send='small', block_send=1, sendall_blocks=True)]
+            for s_ in scheds:
+                s_['seed'] = rng.getrandbits(32)
+            if not quick:
+                scheds += S.schedules(rng, 20, ctx.tier)
+        elif quick:
             scheds = S.schedules(rng, 4 if scn.get('core') else 2, ctx.tier)
             if not scn.get('core'):
                 # every fixed schedule still runs on a third of the flavours
@@ -216,8 +249,17 @@ def run(ctx):
         for i in range(nparts):
             reply_tasks.append((kind, ver, sch[i::nparts], seed))
     async_reply = pool.map_async(S.worker_reply, reply_tasks, chunksize=1)
+    rr = random.Random(ctx.rng.getrandbits(48))
+    hists = S.call_histories(rr, 6 if quick else 120)
+    ct_tasks = [(h, S.calltrace_schedules(rr, 2 if quick else 12), rr.getrandbits(32)) for h in hists]
+    async_ct = pool.map_async(S.worker_calltrace, ct_tasks, chunksize=1)
+    # ---- blocking wrappers: table regenerated from the ast of /repo
+    okw, msgw = units.generate('C14_Wrappers', vlib.COQ)
+    ctx.log('wrapper table: %s' % msgw)
+    if not okw:
+        tie_broken = msgw
     # ---- proofs
-    res = vlib.proof_stage(ctx, 'Props/C14.v', model_targets=['Model/C14_Check.vo', 'Model/C14_AsyncSM.vo'])
+    res = vlib.proof_stage(ctx, 'Props/C14.v', model_targets=['Model/C14_Check.vo', 'Model/C14_AsyncSM.vo', 'Model/C14_ReadLoop.vo'])
     ctx.log('proof stage ok=%s failing=%s' % (res['ok'], res['failing']))
     ctx.cov['trusted_base'] = [
         'Coq 8.16.1 kernel + vm_compute (case evaluation)',
@@ -342,7 +384,23 @@ def run(ctx):
     else:
         tie_broken = tie_broken or ('model does not compile: %s' % res['failing'])
     # ---- system level results
-    sys_res = async_sys.get(timeout=6000) + async_reply.get(timeout=6000)
+    ct_res = async_ct.get(timeout=6000)
+    sys_res = async_sys.get(timeout=6000) + async_reply.get(timeout=6000) + ct_res
+    # the per-call traces against the model of the read loop (message sequence only)
+    if res['model_ok']:
+        ct_lits, ct_names = [], []
+        for r in ct_res:
+            lit = calltrace_lit(r) if 'error' not in r else None
+            if lit:
+                ct_lits.append(lit)
+                ct_names.append(r['name'])
+        bads, errs = vlib.coq_bad_indices('C14c', IMPORTS, 'ReadCase', ['chk_readloop'], ct_lits, shard=max(4, (len(ct_lits) + 7) // 8))
+        ctx.count('model-vs-impl:read-calls', len(ct_lits), [('agree', len(ct_lits) - len(bads[0]))])
+        for e in errs:
+            tie_broken = 'case evaluation failed (read-calls): %s' % e[:300]
+        for i in bads[0][:3]:
+            ctx.log('model/impl disagreement read-calls %s: %s' % (ct_names[i], ct_lits[i][:500]))
+            tie_broken = 'model of the read loop disagrees with the per-call trace of %s: %s' % (ct_names[i], ct_lits[i][:500])
     pool.close()
     pool.join()
     n_runs = 0
@@ -374,7 +432,8 @@ def run(ctx):
                 if key.startswith('sync-flush-reached'):
                     what = 'socket.sendall (BufferedSocket.flush(), blocking-socket API) was reached from the generator API; ' + what
                 ctx.violation(key, what,
-                              {'kind': 'sys-reply' if r.get('reply') else 'sys', 'reply': r.get('reply'),
+                              {'kind': 'sys-reply' if r.get('reply') else ('sys-calls' if r.get('calltrace') else 'sys'),
+                               'reply': r.get('reply'), 'history': r.get('calltrace'),
                                'scenario': r['name'], 'sched': s, 'seed_task': r.get('seed'),
                                'diffs': repr(diffs)[:4000],
                                'how': './check C14 --replay <this file> reruns the scenario under the schedule'})
@@ -469,6 +528,18 @@ def replay(ctx, path):
     if kind == 'asm-select':
         bad = U.impl_asm_select(r['op'], r['yields'], r['value'])
         print('AsyncStateMachine select loop:', bad or 'runs the generator to completion')
+        return 1 if bad else 0
+    if kind == 'sys-calls':
+        import c14_sys as S
+        h = r['history']
+        h['ver'] = tuple(h['ver'])
+        h['stages'] = [([tuple(a) for a in acts], [tuple(c) for c in calls]) for acts, calls in h['stages']]
+        w = S.worker_calltrace((h, [r['sched']], r['seed_task']))
+        bad = 0
+        print('unconstrained per-call trace:', w.get('base_trace'))
+        for s_, diffs, outcome, rf in w.get('results', []):
+            print('schedule', s_, 'differences:', diffs[:4] if diffs else 'none')
+            bad |= bool(diffs)
         return 1 if bad else 0
     if kind == 'sys-reply':
         import c14_sys as S
